@@ -217,3 +217,23 @@ def quant_check(x, q, bits, tmean, tstd, dmean, dstd, tie_eps=1e-6):
     bad = (d > tol) | ~inrange
     ties = np.abs(np.abs(y - np.floor(y)) - 0.5) < tie_eps
     return int(bad.sum()), float(d.max()) if d.size else 0.0, int(ties.sum())
+
+
+def tap_complex_quantizer(q):
+    """Log the calls of an EXISTING ComplexQuantizer (e.g. the one a backend built internally) without replacing it:
+    the object keeps whatever configuration the library gave it."""
+    q.calls = []
+    orig = q.quantize
+
+    def tapped(voltages, custom_stds=None):
+        vin = np.array(voltages, copy=True)
+        cs = None if custom_stds is None else np.array(custom_stds, copy=True)
+        tm = (q.quantizer_r.target_mean, q.quantizer_i.target_mean)
+        ts = (q.quantizer_r.target_std, q.quantizer_i.target_std)
+        out = orig(voltages, custom_stds=custom_stds)
+        q.calls.append(dict(x=vin, q=np.array(out, copy=True), custom_stds=cs, tmean=tm, tstd=ts, bits=q.num_bits,
+                            bits_ri=(q.quantizer_r.num_bits, q.quantizer_i.num_bits),
+                            stats_r=tuple(q.quantizer_r.stats_cache), stats_i=tuple(q.quantizer_i.stats_cache)))
+        return out
+    q.quantize = tapped
+    return q
